@@ -406,8 +406,10 @@ fn build_otlp(c: &Collector, transport: Transport, enc: Enc, gzip: bool, sig: [b
             Transport::Http => emit_otlp::http(if d { c.dead_http_url(s) } else { c.http_url(s) }),
             Transport::Grpc => emit_otlp::grpc(if d { c.dead_grpc_url() } else { c.grpc_url() }),
         };
-        t.allow_compression(gzip)
+        // a configured header must reach the collector on every request, compressed or not, HTTP or gRPC
+        t.allow_compression(gzip).headers([("x-hotlp-key", "k1")])
     };
+    c.expect_header(Some(("x-hotlp-key", "k1")));
     let mut b = emit_otlp::new().resource([("service.name", "hotlp")]);
     if sig[0] {
         b = b.logs(if enc.json_for(Signal::Logs) { emit_otlp::logs_json(t(Signal::Logs)) } else { emit_otlp::logs_proto(t(Signal::Logs)) });
